@@ -582,6 +582,9 @@ def run_shard(desc) -> Acc:
 
     logging.disable(logging.CRITICAL)
     acc = Acc()
+    from ..contracts import install_ash_contracts
+
+    install_ash_contracts(acc)
     cases = gen_cases(desc["tier"], desc["seed"])
     for i, case in enumerate(cases):
         if i % desc["n"] != desc["k"]:
